@@ -421,4 +421,4 @@ CHECKS["C05"] = {
 # properties deliberately not claimed: {"property_id":..., "reason":...}
 NOT_APPLICABLE = []
 
-FIX_COMMITS = ["b0fbfbf", "ce16772", "79536cb", "9da7ceb", "ba9a898", "cd17c24", "0f579ef", "cfad1cd", "1450983", "0eb6137", "4ba5ca6", "2f36527", "b732485", "0e0d97d", "b946db5", "3bc2b0d", "7489d42", "0cccb75", "c472f5d", "674085b", "73fcd7e", "697926b", "0e63ec2", "16c771f", "5bb0b0a", "7be8843", "debd9c3", "9790624", "e55761e", "d0b7056", "7233be6", "02f7bc3", "f261dd3", "1915aea", "aadc9de", "69322a4", "7171149", "0639e41", "bc577d7", "b73ea9f", "8aab2c0", "3c0a58c", "82642f8", "200f867", "b62153d", "bf92dcc", "cf39465", "e7f20b9", "3e83a3e", "bf86c27", "3f2da7a", "bcff0c6", "120fc92", "93b06c2", "b2cc18e", "1ded907", "8fa7332", "dd3b505", "bb7241e", "0b09b69", "3b96d3c", "519bf75", "9d0f81b", "005ad4e", "1f81636", "c76d4de", "6045322", "0b316f5", "2e6dcdc", "35d6cd5", "3e1963a", "8860700", "3d9c8f2", "f9ae0af", "e1e2630", "fdeef4a", "54ecf97", "f31dd50", "15311af", "1668afa", "643069d", "8540891", "7d9b800", "7865a17", "af54bc0", "6f9f223", "6007f3c", "3ba3d88", "6df3059", "b09fe54", "a525b13", "c3952e5", "12a4933", "4d5b9c5", "83389a6", "605f70a", "71f5844", "5f98447"]
+FIX_COMMITS = ["b0fbfbf", "ce16772", "79536cb", "9da7ceb", "ba9a898", "cd17c24", "0f579ef", "cfad1cd", "1450983", "0eb6137", "4ba5ca6", "2f36527", "b732485", "0e0d97d", "b946db5", "3bc2b0d", "7489d42", "0cccb75", "c472f5d", "674085b", "73fcd7e", "697926b", "0e63ec2", "16c771f", "5bb0b0a", "7be8843", "debd9c3", "9790624", "e55761e", "d0b7056", "7233be6", "02f7bc3", "f261dd3", "1915aea", "aadc9de", "69322a4", "7171149", "0639e41", "bc577d7", "b73ea9f", "8aab2c0", "3c0a58c", "82642f8", "200f867", "b62153d", "bf92dcc", "cf39465", "e7f20b9", "3e83a3e", "bf86c27", "3f2da7a", "bcff0c6", "120fc92", "93b06c2", "b2cc18e", "1ded907", "8fa7332", "dd3b505", "bb7241e", "0b09b69", "3b96d3c", "519bf75", "9d0f81b", "005ad4e", "1f81636", "c76d4de", "6045322", "0b316f5", "2e6dcdc", "35d6cd5", "3e1963a", "8860700", "3d9c8f2", "f9ae0af", "e1e2630", "fdeef4a", "54ecf97", "f31dd50", "15311af", "1668afa", "643069d", "8540891", "7d9b800", "7865a17", "af54bc0", "6f9f223", "6007f3c", "3ba3d88", "6df3059", "b09fe54", "a525b13", "c3952e5", "12a4933", "4d5b9c5", "83389a6", "605f70a", "71f5844", "5f98447", "2e6cf47"]
